@@ -50,7 +50,12 @@ def build_pomdp(c):
         def observation_dist(self, a, ns):
             return DictDistribution({o: p for o, p in enumerate(Ob[a][ns]) if p > 0})
 
-    return GenPOMDP()
+    pomdp = GenPOMDP()
+    if c.get("explicit_lists"):
+        # explicit lists: states unreachable from the initial distribution stay in the model
+        pomdp._state_list = tuple(range(nS))
+        pomdp._action_list = tuple(range(nA))
+    return pomdp
 
 
 def lists(pomdp):
